@@ -403,6 +403,7 @@ func main() {
 	writeIfChanged(filepath.Join(*out, "TextPlans.lean"), "-- GENERATED by /verif/harness/cmd/extract from /repo's scan_rr.go and types.go (do not edit): the RDATA parsers and printers\n-- that use only the idioms of the text algebra (DnsModel/TextCodec.lean), translated into its steps\nimport DnsModel.TextCodecBase\nnamespace Dns.Gen\nopen Dns\n"+leanTextPlans(tps)+"end Dns.Gen\n")
 	writeIfChanged(filepath.Join(*out, "textplans.json"), jsonTextPlans(tps))
 	writeIfChanged(filepath.Join(*out, "LenPlans.lean"), "-- GENERATED by /verif/harness/cmd/extract from /repo's len() methods (ztypes.go, types.go, edns.go) (do not edit): what Len adds\n-- for the RDATA of each type, translated into the steps of DnsModel/LenBase.lean\nimport DnsModel.LenBase\nnamespace Dns.Gen\nopen Dns\n"+lenSection(p)+"end Dns.Gen\n")
+	writeIfChanged(filepath.Join(*out, "CanonPlans.lean"), "-- GENERATED by /verif/harness/cmd/extract from /repo's dnssec.go rawSignatureData (do not edit): the record fields put into\n-- lower case before signing / verifying (RFC 4034 6.2 (3))\nnamespace Dns.Gen\n"+leanCanonLower(p.canonLower())+"end Dns.Gen\n")
 	lt := p.lexTables()
 	if len(failures) > 0 {
 		for _, f := range failures {
